@@ -18,6 +18,7 @@ from __future__ import annotations
 import csv
 import io
 import itertools
+import json
 import os
 import signal
 from collections import Counter
@@ -49,13 +50,16 @@ ALLOW_AXIOMS = ()
 
 IMPORTS = "From Cooler Require Import Model.Dump."
 D18 = "dump-header-missing-when-no-pixel-in-row-range"
+CLOAD_CC = "cload-pairs-comment-char-ignored"
 
 
 # ============================================================ small coolers
 class Cool:
     """the input data a test cooler is created from (the oracle reads only this)"""
 
-    def __init__(self, widths, px, weights, symm, tag=""):
+    def __init__(self, widths, px, weights, symm, tag="", fcount=False, extra=None):
+        self.fcount = fcount                                          # float `count` column (values are dyadic Fractions)
+        self.extra = extra or {}                                      # extra float bin columns: name -> [Fraction]
         self.widths = widths
         self.blocks = blocks_from_widths(widths)
         self.bins = [b for blk in self.blocks for b in blk]          # (cid, start, end)
@@ -66,28 +70,40 @@ class Cool:
         self.tag = tag
 
     def spec(self):
-        return {"widths": self.widths, "px": [list(p) for p in self.px], "symm": self.symm,
+        fr = lambda v: [v.numerator, v.denominator]
+        return {"widths": self.widths, "px": [[a, b, fr(v) if self.fcount else v] for a, b, v in self.px], "symm": self.symm,
+                "fcount": self.fcount, "extra": {k: [fr(x) for x in v] for k, v in self.extra.items()},
                 "weights": None if self.weights is None else [None if w is None else [w.numerator, w.denominator] for w in self.weights]}
 
     @staticmethod
     def from_spec(s):
         w = s["weights"]
-        return Cool(s["widths"], [tuple(p) for p in s["px"]],
-                    None if w is None else [None if x is None else Fraction(x[0], x[1]) for x in w], s["symm"])
+        fc = s.get("fcount", False)
+        return Cool(s["widths"], [(a, b, Fraction(v[0], v[1]) if fc else v) for a, b, v in s["px"]],
+                    None if w is None else [None if x is None else Fraction(x[0], x[1]) for x in w], s["symm"],
+                    fcount=fc, extra={k: [Fraction(x[0], x[1]) for x in v] for k, v in s.get("extra", {}).items()})
 
     def bins_df(self):
         df = pd.DataFrame({"chrom": [self.names[c] for c, _, _ in self.bins],
                            "start": [s for _, s, _ in self.bins], "end": [e for _, _, e in self.bins]})
         if self.weights is not None:
             df["weight"] = [np.nan if w is None else float(w) for w in self.weights]
+        for k, v in self.extra.items():
+            df[k] = [float(x) for x in v]
         return df
 
     def create(self, uri):
         import cooler
         px = pd.DataFrame({"bin1_id": np.array([p[0] for p in self.px], dtype=np.int64),
                            "bin2_id": np.array([p[1] for p in self.px], dtype=np.int64),
-                           "count": np.array([p[2] for p in self.px], dtype=np.int32)})
-        cooler.create_cooler(uri, self.bins_df(), px, symmetric_upper=self.symm, ordered=True)
+                           "count": np.array([float(p[2]) for p in self.px], dtype=np.float64) if self.fcount
+                                    else np.array([p[2] for p in self.px], dtype=np.int32)})
+        if self.fcount:        # plus an extra pixel column the dump must ignore
+            px["foo"] = np.arange(len(px), dtype=np.int64)
+            cooler.create_cooler(uri, self.bins_df(), px, columns=["count", "foo"], dtypes={"count": np.float64},
+                                 symmetric_upper=self.symm, ordered=True)
+        else:
+            cooler.create_cooler(uri, self.bins_df(), px, symmetric_upper=self.symm, ordered=True)
 
     def coq(self):
         bins = C.lst([C.tup(C.z(c), C.z(s), C.z(e)) for c, s, e in self.bins])
@@ -308,6 +324,8 @@ def bin_field_text(cool, f, i, opt):
         return e
     if f == "weight":
         return ("Q", cool.weights[i])
+    if f in cool.extra:
+        return ("Q", cool.extra[f][i])
     raise KeyError(f)
 
 
@@ -324,7 +342,7 @@ def oracle_dump(cool, opt):
                 d["chrom" + suf], d["start" + suf], d["end" + suf] = cool.names[c], s, e
         else:
             d["bin1_id"], d["bin2_id"] = a + (1 if opt["ids1"] else 0), b + (1 if opt["ids1"] else 0)
-        d["count"] = v
+        d["count"] = ("Q", v) if cool.fcount else v
         if opt["balanced"]:
             w1, w2 = cool.weights[a], cool.weights[b]
             d["balanced"] = ("Q", None if w1 is None or w2 is None else w1 * w2 * v)
@@ -374,12 +392,12 @@ def _alarm(signum, frame):
     raise Timeout()
 
 
-def invoke(runner, cli, args, limit=20):
+def invoke(runner, cli, args, limit=20, input=None):
     """(exit_code or 'timeout', stdout) ; never raises"""
     old = signal.signal(signal.SIGALRM, _alarm)
     signal.alarm(limit)
     try:
-        res = runner.invoke(cli, args)
+        res = runner.invoke(cli, args, input=input)
         code = res.exit_code
         out = res.stdout
     except Timeout:
@@ -425,12 +443,15 @@ def sort_rows(rows):
     return sorted(rows)
 
 
-def check_dump_case(ctx, cool, opt, code, text, mval, lib=None):
-    case = {"kind": "dump", "cool": cool.spec(), "opt": {k: (list(v) if isinstance(v, tuple) else v) for k, v in opt.items()}}
+SKIP = ("skip-model",)
+
+
+def check_dump_case(ctx, cool, opt, code, text, mval, lib=None, extra_args=None):
+    case = {"kind": "dump", "extra_args": extra_args or [], "cool": cool.spec(), "opt": {k: (list(v) if isinstance(v, tuple) else v) for k, v in opt.items()}}
     lines = read_tsv(text) if code == 0 else []
     exp_cols, exp_rows, ordered = (None, None, True)
     valid_cols = opt["columns"] is None or all(c in all_columns(opt) for c in opt["columns"])
-    valid_ann = all(f in ("chrom", "start", "end") or (f == "weight" and cool.weights is not None) for f in (opt["annotate"] or []))
+    valid_ann = all(f in ("chrom", "start", "end") or (f == "weight" and cool.weights is not None) or f in cool.extra for f in (opt["annotate"] or []))
     needs_w = opt["balanced"] and cool.weights is None
     wellformed = valid_cols and valid_ann and not needs_w
     nontrivial = False
@@ -439,11 +460,12 @@ def check_dump_case(ctx, cool, opt, code, text, mval, lib=None):
         nontrivial = len(exp_rows) > 0 and (any(opt[f] for f in FLAGS) or opt["r"] is not None or opt["columns"] is not None)
     ctx.case(case, nontrivial=bool(nontrivial), kind="dump:" + ("fill" if opt["fill"] and cool.symm else "direct") + (":region" if opt["r"] else ""))
     # ---- model vs implementation
-    mstat, mhead, mrows = model_lines(mval, opt)
+    mstat, mhead, mrows = model_lines(None if mval is SKIP else mval, opt)
     istat = "ok" if code == 0 else ("error" if isinstance(code, int) else code)
     exact_order = ordered or opt["k"] is None
-    ctx.compare("dump exit status", case, istat, mstat)
-    if istat == "ok" and mstat == "ok":
+    if mval is not SKIP:
+        ctx.compare("dump exit status", case, istat, mstat)
+    if mval is not SKIP and istat == "ok" and mstat == "ok":
         mfull = ([mhead] if mhead is not None else []) + mrows
         if exact_order:
             ctx.compare("dump lines", case, lines, mfull)
@@ -508,7 +530,7 @@ def library_rows(clr, cool, opt):
     for rec in df.itertuples(index=False):
         cells = []
         for name, v in zip(df.columns, rec):
-            if name == "balanced":
+            if name == "balanced" or (name == "count" and cool.fcount):
                 cells.append(fmt_float(None if pd.isna(v) else Fraction(float(v)), opt))
             else:
                 cells.append(str(v))
@@ -551,7 +573,7 @@ def run_dump(ctx, runner, cli, thorough):
         o = default_opts(); o["columns"] = ["nope"]; opts.append(o)
         o = default_opts(); o["annotate"] = ["nope"]; opts.append(o)
         o = default_opts(); o["balanced"] = True; opts.append(o)
-        nrand = (120 if thorough else 45) if ci >= 2 else 40
+        nrand = (120 if thorough else 36) if ci >= 2 else (40 if thorough else 12)
         for _ in range(nrand):
             opts.append(random_opts(cool, rng, regions))
         jobs += [(ci, o) for o in opts]
@@ -590,6 +612,125 @@ def run_dump(ctx, runner, cli, thorough):
     return cools, uris
 
 
+# ============================================================ audit block: region geometry x annotating options, representations
+def reg_text(cool, lo, hi, style=0):
+    """region text for the bins lo..hi-1 (inside one chromosome); style 0 plain, 1 whole chromosome by name when it is,
+    2 open end `name:start-` when it reaches the chromosome end, 3 thousands separators"""
+    c = cool.bins[lo][0]
+    blk = cool.blocks[c]
+    s_, e = cool.bins[lo][1], cool.bins[hi - 1][2]
+    name = cool.names[c]
+    if style == 1 and s_ == 0 and e == blk[-1][2]:
+        return name
+    if style == 2 and e == blk[-1][2]:
+        return f"{name}:{s_}-"
+    if style == 3:
+        sep = lambda x: (str(x)[:-1] + "," + str(x)[-1]) if x >= 10 else str(x)
+        return f"{name}:{sep(s_)}-{sep(e)}"
+    return f"{name}:{s_}-{e}"
+
+
+def region_pairs(cool):
+    """structured (row range, column range) pairs: identical, up/downstream, overlapping, nested, trans, single bins,
+    chromosome ends; as bin ranges"""
+    sizes = [len(b) for b in cool.blocks]
+    ci = max(range(len(sizes)), key=lambda k: sizes[k])
+    b0, m = sum(sizes[:ci]), sizes[ci]
+    ti = next((k for k in range(len(sizes)) if k != ci), None)
+    A, B, AB, BC, ALL, MID = (b0, b0 + 1), (b0 + m - 1, b0 + m), (b0, b0 + 2), (b0 + 1, b0 + m), (b0, b0 + m), (b0 + 1, b0 + 2)
+    pairs = [(ALL, ALL), (A, B), (B, A), (AB, BC), (BC, AB), (MID, ALL), (ALL, MID), (B, B), (MID, None), (A, None)]
+    if ti is not None:
+        t0, tm = sum(sizes[:ti]), sizes[ti]
+        T, TF, TL = (t0, t0 + tm), (t0, t0 + 1), (t0 + tm - 1, t0 + tm)
+        pairs += [(ALL, T), (T, ALL), (TF, MID), (TL, TL), (B, TF), (TL, A)]
+    return pairs
+
+
+def audit_option_sets(cool):
+    w = cool.weights is not None
+    sets = [dict(join=True), dict(annotate=["start", "end"], starts1=True, ids1=True)]
+    if w:
+        sets += [dict(balanced=True), dict(annotate=["weight"]), dict(join=True, balanced=True, starts1=True, header=True),
+                 dict(join=True, annotate=["weight"], columns=["weight2", "chrom1", "count", "start2"], na_rep="NA")]
+    return sets
+
+
+def run_dump_audit(ctx, runner, cli, cools, uris):
+    import cooler
+    jobs = []
+    for ci in (0, 1):
+        cool = cools[ci]
+        for pi, (r, r2) in enumerate(region_pairs(cool)):
+            for oi, st in enumerate(audit_option_sets(cool)):
+                variants = [(f, k) for f in (False, True) for k in (None, 1)] if ci == 0 else [(False, 1 if (pi + oi) % 2 else None)]
+                for fill, k in variants:
+                    o = default_opts()
+                    o.update(st)
+                    o["fill"], o["k"] = fill, k
+                    o["r"] = (reg_text(cool, *r, style=(pi + oi) % 4), tuple(r))
+                    o["r2"] = None if r2 is None else (reg_text(cool, *r2, style=(pi + 2 * oi + 1) % 4), tuple(r2))
+                    jobs.append((ci, o))
+    pre = "\n".join(f"Definition cool{ci} := {cools[ci].coq()}." for ci in (0, 1))
+    mvals = C.coq_eval(IMPORTS, [f"dump_obs cool{ci} {coq_opts(o)}" for ci, o in jobs], preamble=pre, tmpdir=ctx.tmp / "auditv", shard=250, jobs=4)
+    clrs = {ci: cooler.Cooler(uris[ci]) for ci in (0, 1)}
+    for (ci, o), mv in zip(jobs, mvals):
+        code, text = invoke(runner, cli, cli_args(o, uris[ci]))
+        lib = None
+        if code == 0:
+            try:
+                lib = library_rows(clrs[ci], cools[ci], o)
+            except Exception:
+                lib = None
+        check_dump_case(ctx, cools[ci], o, code, text, mv, lib)
+    # ---- representations the model does not cover (oracle only): float counts + extra pixel column, extra float bin
+    # column, a cooler inside an HDF5 group, --no-balance / -o - spellings, -t bins with --na-rep / --float-format
+    t = TABLES[0]
+    Fr = Fraction
+    fc = Cool(t, [(0, 0, Fr(7, 2)), (0, 3, Fr(1)), (1, 1, Fr(17, 4)), (1, 2, Fr(3, 8)), (2, 2, Fr(1)), (2, 4, Fr(5)), (4, 4, Fr(1, 8))],
+              [Fr(1, 2), None, Fr(5, 4), Fr(2), Fr(3, 4)], True, "float-count", fcount=True,
+              extra={"gc": [Fr(1, 8), Fr(1, 4), Fr(1, 2), Fr(3, 4), Fr(1)]})
+    furi = str(ctx.tmp / "dump" / "fc.cool") + "::/a/b"
+    fc.create(furi)
+    fclr = cooler.Cooler(furi)
+    rp = region_pairs(fc)
+    flist = []
+    for st in (dict(), dict(header=True, ff=".3f"), dict(ff=".2e"), dict(balanced=True, ff=".12g"), dict(annotate=["gc"]),
+               dict(annotate=["gc", "weight"], columns=["gc2", "weight1", "count"], na_rep="nan"), dict(join=True, annotate=["gc"], header=True),
+               dict(balanced=True, na_rep=".", fill=True), dict(fill=True, join=True, ff=".1f")):
+        for (r, r2) in [(None, None), rp[3], rp[11]]:
+            o = default_opts()
+            o.update(st)
+            if r is not None:
+                o["r"], o["r2"] = (reg_text(fc, *r), tuple(r)), (reg_text(fc, *r2, style=2), tuple(r2))
+            flist.append((o, []))
+    o = default_opts(); flist.append((o, ["--no-balance"]))
+    o = default_opts(); o["header"] = True; flist.append((o, ["-o", "-"]))
+    for o, extra in flist:
+        code, text = invoke(runner, cli, cli_args(o, furi)[:-1] + extra + [furi])
+        lib = None
+        if code == 0 and not extra:
+            try:
+                lib = library_rows(fclr, fc, o)
+            except Exception:
+                lib = None
+        check_dump_case(ctx, fc, o, code, text, SKIP, lib, extra_args=extra)
+    for na, ff, cols in ((None, None, None), ("NA", ".2f", None), ("-", ".3e", ["gc", "chrom", "weight"])):
+        case = {"kind": "dump-bins-format", "na_rep": na, "ff": ff, "columns": cols}
+        ctx.case(case, nontrivial=True, kind="dump:bins")
+        args = ["dump", "-t", "bins", "-H"] + (["--na-rep", na] if na is not None else []) + (["--float-format", ff] if ff else []) \
+            + (["-c", ",".join(cols)] if cols else []) + [furi]
+        code, text = invoke(runner, cli, args)
+        lines = read_tsv(text) if code == 0 else []
+        fo = {"na_rep": na, "ff": ff}
+        expd = {"chrom": [fc.names[c] for c, _, _ in fc.bins], "start": [str(s_) for _, s_, _ in fc.bins], "end": [str(e) for _, _, e in fc.bins],
+                "weight": [fmt_float(w, fo) for w in fc.weights], "gc": [fmt_float(g, fo) for g in fc.extra["gc"]]}
+        ok = bool(lines) and sorted(lines[0]) == sorted(cols or expd) and (cols is None or lines[0] == cols) and len(lines) == len(fc.bins) + 1 \
+            and all([row[k] for row in lines[1:]] == expd[name] for k, name in enumerate(lines[0]))
+        if not ok:
+            ctx.fail(case, {"why": "dump -t bins with formatting options differs from the bin table", "got": lines[:4], "exit": str(code)}, None)
+    ctx.extra["dump_audit_cases"] = len(jobs) + len(flist) + 3
+
+
 # ============================================================ load / cload helpers
 def write_bins(cool, path):
     with open(path, "w") as f:
@@ -626,12 +767,18 @@ def bins_arg(cool, ddir, tag, kind):
     return str(p)
 
 
-def read_pixels(uri, cols=("count",)):
-    """(storage is symmetric?, [(bin1, bin2, v...)]) of a cooler file, or None when it cannot be read"""
+def read_pixels(uri, cols=("count",), floats=False):
+    """(storage is symmetric?, [(bin1, bin2, v...)]) of a cooler file, or None when it cannot be read;
+    floats=True: value columns must be stored as floating point and are returned as exact Fractions"""
     import cooler
     try:
         clr = cooler.Cooler(uri)
         df = clr.pixels()[:]
+        if floats:
+            if any(df[c].dtype.kind != "f" for c in cols):
+                return None
+            out = [tuple([int(a), int(b)] + [Fraction(float(x)) for x in vals]) for a, b, *vals in zip(df["bin1_id"], df["bin2_id"], *[df[c] for c in cols])]
+            return clr.storage_mode == "symmetric-upper", out
         out = [tuple(int(x) for x in rec) for rec in zip(df["bin1_id"], df["bin2_id"], *[df[c] for c in cols])]
         return clr.storage_mode == "symmetric-upper", out
     except Exception as e:
@@ -689,24 +836,70 @@ def py_load(recs, n_bins, one_based, tril, chunk):
 
 
 def impl_load(runner, cli, cool, case, ldir, k):
-    """run `cooler load` on the case's text; (exit code, pixel rows or None, storage symmetric? or None)"""
-    inp = ldir / f"in{k}.txt"
-    inp.write_text("".join("\t".join(rec) + "\n" for rec in case["text"]))
+    """run `cooler load` on the case's text; (exit code, pixel rows or None, storage symmetric? or None).
+    case["mode"]: file (default) | gz | stdin ; case["comment"]: a comment character, comment lines are interleaved;
+    case["extra"]: further CLI arguments ; case["post"]: post-conditions to observe (metadata / assembly / append / tempdir)"""
+    import gzip
+    import cooler
+    mode = case.get("mode", "file")
+    body = ""
+    for i, rec in enumerate(case["text"]):
+        if case.get("comment") and i % 2 == 1:
+            body += case["comment"] + " a comment\tline\n"
+        body += "\t".join(rec) + "\n"
+    inp = ldir / (f"in{k}.txt" + (".gz" if mode == "gz" else ""))
+    if mode == "gz":
+        with gzip.open(inp, "wt") as f:
+            f.write(body)
+    elif mode == "file":
+        inp.write_text(body)
     out = ldir / f"out{k}.cool"
+    post = case.get("post") or {}
+    target = str(out)
+    if post.get("append"):       # a first collection is already in the file; the new one goes to a second group with -a
+        cool.create(str(out))
+        target = str(out) + "::/second"
+        append_flag = ["-a" if case.get("short") else "--append"]
     args = ["load", "-f", case["fmt"]]
     if case["one_based"]:
         args.append("--one-based")
     if not case["symm"]:
-        args.append("--no-symmetric-upper")
+        args.append("-N" if case.get("short") else "--no-symmetric-upper")
     if case["duplex"]:
         args += ["--input-copy-status", "duplex"]
     if case["chunk"] is not None:
-        args += ["--chunksize", str(case["chunk"])]
+        args += ["-c" if case.get("short") else "--chunksize", str(case["chunk"])]
     for a in case["fields"]:
         args += ["--field", a]
-    args += [bins_arg(cool, ldir, f"b{k}", case["bins"]), str(inp), str(out)]
-    code, _ = invoke(runner, cli, args, limit=30)
-    got = read_pixels(str(out), cols=tuple(case["vn"])) if code == 0 else None
+    extra = list(case.get("extra") or []) + (append_flag if post.get("append") else [])
+    tdir = None
+    if post.get("tempdir"):
+        tdir = ldir / f"tmp{k}"
+        tdir.mkdir(exist_ok=True)
+        extra += ["--temp-dir", str(tdir)]
+    if post.get("metadata") is not None:
+        mp = ldir / f"meta{k}.json"
+        mp.write_text(json.dumps(post["metadata"]))
+        extra += ["--metadata", str(mp)]
+    args += extra + [bins_arg(cool, ldir, f"b{k}", case["bins"]), "-" if mode == "stdin" else str(inp), target]
+    code, _ = invoke(runner, cli, args, limit=30, input=body if mode == "stdin" else None)
+    vn = case["vn"]
+    got = read_pixels(target, cols=tuple(vn), floats=case.get("floats", False)) if code == 0 else None
+    obs = {}
+    if code == 0 and post:
+        try:
+            clr = cooler.Cooler(target)
+            obs["metadata"] = clr.info.get("metadata")
+            obs["assembly"] = clr.info.get("genome-assembly")
+            obs["groups"] = sorted(cooler.fileops.list_coolers(str(out)))
+            if post.get("append"):
+                first = read_pixels(str(out))
+                obs["first_intact"] = first is not None and first[1] == [tuple(p) for p in cool.px]
+            if tdir is not None:
+                obs["tempdir_left"] = sorted(os.listdir(tdir))
+        except Exception as e:
+            obs["error"] = type(e).__name__
+    case["_obs"] = obs
     for pth in (inp, out):
         if pth.exists():
             pth.unlink()
@@ -715,6 +908,27 @@ def impl_load(runner, cli, cool, case, ldir, k):
 
 def oracle_load(cool, case, code, ires, storage):
     """None when the property holds on this case, else a detail dict"""
+    bad = oracle_load_pixels(cool, case, code, ires, storage)
+    if bad:
+        return bad
+    post, obs = case.get("post") or {}, case.get("_obs") or {}
+    if post and code == 0:
+        if "error" in obs:
+            return {"why": "the loaded file cannot be inspected", "obs": obs}
+        if post.get("metadata") is not None and obs.get("metadata") != post["metadata"]:
+            return {"why": "--metadata not stored", "obs": obs}
+        if post.get("assembly") is not None and obs.get("assembly") != post["assembly"]:
+            return {"why": "--assembly not stored", "obs": obs}
+        if post.get("append") and (obs.get("groups") != ["/", "/second"] or not obs.get("first_intact")):
+            return {"why": "--append: the existing collection was lost or altered", "obs": obs}
+        if post.get("tempdir") and not post.get("keep_temp") and obs.get("tempdir_left"):
+            return {"why": "temporary files left in --temp-dir", "obs": obs}
+        if post.get("keep_temp") and not obs.get("tempdir_left"):
+            return {"why": "--no-delete-temp: no temporary file kept in --temp-dir", "obs": obs}
+    return None
+
+
+def oracle_load_pixels(cool, case, code, ires, storage):
     vn = case["vn"]
     if case["kind"] == "load-dump":
         exp = [tuple(p) for p in cool.px]
@@ -724,8 +938,10 @@ def oracle_load(cool, case, code, ires, storage):
     # independent reading of the file: value columns by their declared numbers
     nums = {"count": 2 if case["fmt"] == "coo" else 6}
     for a in case["fields"]:
-        nm, rest = a.split("=", 1)
-        nums[nm] = int(rest.split(":")[0]) - 1
+        head = a.split(":")[0]
+        if "=" in head:
+            nm, num = head.split("=", 1)
+            nums[nm] = int(num) - 1
     index = {(cool.names[c], s_): i for i, (c, s_, e) in enumerate(cool.bins)}
     recs = []
     for rec in case["text"]:
@@ -735,8 +951,9 @@ def oracle_load(cool, case, code, ires, storage):
                 a, b = a - 1, b - 1
         else:
             d = 1 if case["one_based"] else 0
-            a, b = index[(rec[0], int(rec[1]) - d)], index[(rec[3], int(rec[4]) - d)]
-        recs.append((a, b, [int(rec[nums[v]]) for v in vn]))
+            a = py_bin_of(cool, cool.names.index(rec[0]), int(rec[1]) - d)
+            b = py_bin_of(cool, cool.names.index(rec[3]), int(rec[4]) - d)
+        recs.append((a, b, [Fraction(rec[nums[v]]) if case.get("floats") else int(rec[nums[v]]) for v in vn]))
     tril = None if not case["symm"] else ("drop" if case["duplex"] else "reflect")
     chunk = case["chunk"] if case["chunk"] is not None else len(case["text"]) + 1
     cols_exp = []
@@ -783,7 +1000,7 @@ def run_load(ctx, runner, cli, cools, uris, thorough):
                          "text": read_tsv(text) if code == 0 else None, "fields": [], "symm": cool.symm,
                          "dump_opt": o})
     # ---- 2. hand-written files with remapped value columns
-    def handwritten(ci, fmt, fields_spec, symm, ob, chunk, recs, ncols, extra_names):
+    def handwritten(ci, fmt, fields_spec, symm, ob, chunk, recs, ncols, extra_names, inner=False):
         """fields_spec: list of (name, colnum0, dtype or None) in declaration order"""
         cool = cools[ci]
         text = []
@@ -794,7 +1011,8 @@ def run_load(ctx, runner, cli, cools, uris, thorough):
             else:
                 for off, i in ((0, a), (3, b)):
                     c, s_, e = cool.bins[i - (1 if False else 0)]
-                    row[off], row[off + 1], row[off + 2] = cool.names[c], str(s_ + (1 if ob else 0)), str(e)
+                    pos = (e - 1) if inner else s_          # any position inside the bin names the bin
+                    row[off], row[off + 1], row[off + 2] = cool.names[c], str(pos + (1 if ob else 0)), str(e)
             for (name, k, _), v in zip(fields_spec, vals):
                 row[k] = str(v)
             text.append(row)
@@ -846,11 +1064,50 @@ def run_load(ctx, runner, cli, cools, uris, thorough):
     jobs.append(handwritten(0, "coo", [("count", 2, None)], True, False, None, [(0, 1, [3]), (1, 0, [4])], 3, []))
     jobs.append(handwritten(0, "coo", [("count", 2, None)], True, False, 1, [(0, 1, [3]), (1, 0, [4]), (0, 1, [5])], 3, []))
 
+    # ---- audit: options and input representations not used above (each on a small hand-written file)
+    def aud(fmt="coo", symm=True, ob=False, chunk=None, recs=None, ci=0, inner=False, **kw):
+        recs = recs if recs is not None else [(0, 0, [7]), (3, 1, [2]), (1, 2, [5]), (4, 4, [9])]
+        ncols = 3 if fmt == "coo" else 7
+        jb = handwritten(ci, fmt, [("count", ncols - 1, None)], symm, ob, chunk, recs, ncols, [], inner=inner)
+        jb["fields"] = kw.pop("fields", [])               # default schema unless stated
+        jb["kind"] = "load-audit"
+        jb.update(kw)
+        jobs.append(jb)
+    aud(comment="#")
+    aud(comment="%", extra=["--comment-char", "%"], fmt="bg2")
+    aud(mode="gz", chunk=2)
+    aud(mode="stdin", fmt="bg2", ob=True)
+    aud(symm=False, short=True, chunk=2)
+    aud(extra=["--input-copy-status", "unique"])
+    aud(chunk=1, extra=["--mergebuf", "2", "--max-merge", "2"], post={"tempdir": True})
+    aud(chunk=1, extra=["--no-delete-temp"], post={"tempdir": True, "keep_temp": True})
+    aud(extra=["--assembly", "hgX", "--storage-options", "compression=gzip,compression_opts=4"],
+        post={"metadata": {"k": [1, 2], "s": "x"}, "assembly": "hgX"})
+    aud(post={"append": True})
+    aud(recs=[(0, 0, [7]), (0, 3, [2]), (3, 0, [2]), (1, 2, [5]), (2, 1, [5]), (4, 4, [9])], duplex=True)
+    aud(recs=[(0, 0, [7]), (0, 3, [2]), (3, 0, [2]), (2, 1, [5]), (4, 4, [9])], duplex=True, fmt="bg2", chunk=2, inner=True)
+    aud(fmt="bg2", inner=True, ob=True)
+    aud(fmt="bg2", inner=True, ci=1, symm=False)
+    aud(fields=["count:dtype=int64"], extra=[])
+    # float counts: dump (12 significant digits) | load --count-as-float, resp. --field count:dtype=float
+    Fr = Fraction
+    fcool = Cool(TABLES[0], [(0, 0, Fr(7, 2)), (0, 3, Fr(1)), (1, 1, Fr(17, 4)), (1, 2, Fr(3, 8)), (2, 4, Fr(5)), (4, 4, Fr(1, 8))],
+                 None, True, "float-count", fcount=True)
+    furi = str(ldir / "fc.cool")
+    fcool.create(furi)
+    for fmt, extra, fields in (("coo", ["--count-as-float"], []), ("bg2", [], ["count:dtype=float"]), ("coo", ["--count-as-float"], ["count=3"])):
+        o = default_opts(); o["ff"] = ".12g"; o["join"] = fmt == "bg2"
+        code, text = invoke(runner, cli, cli_args(o, furi))
+        jobs.append({"kind": "load-dump", "ci": 0, "cool": fcool, "fmt": fmt, "one_based": False, "duplex": False, "chunk": rng.choice([None, 2]),
+                     "text": read_tsv(text) if code == 0 else None, "fields": fields, "symm": True, "dump_opt": o,
+                     "extra": extra, "floats": True, "nomodel": True})
+
     # ---- run: model
     exprs, meta = [], []
     for jb in jobs:
-        cool = cools[jb["ci"]]
-        if jb["text"] is None:
+        cool = jb.get("cool") or cools[jb["ci"]]
+        jb.setdefault("vn", jb.get("vnames") or ["count"])
+        if jb["text"] is None or jb.get("nomodel"):
             continue
         tril = None
         if jb["symm"]:
@@ -874,17 +1131,20 @@ def run_load(ctx, runner, cli, cools, uris, thorough):
             elif jb["fmt"] == "bg2" and not jb["duplex"]:
                 exprs.append(f"Some (bg2_text {coq_bins(cool)} {coq_names(cool)} {C.b(jb['one_based'])} {C.lst([C.tup(C.tup(C.z(a), C.z(b)), C.z(v)) for a, b, v in cool.px])})")
                 meta.append((jb, "__text"))
-    mvals = C.coq_eval(IMPORTS, exprs, tmpdir=ctx.tmp / "loadv", shard=60, jobs=4)
+    mvals = C.coq_eval(IMPORTS, exprs, tmpdir=ctx.tmp / "loadv", shard=30, jobs=4)
     by_job = {}
     for (jb, vn), mv in zip(meta, mvals):
         by_job.setdefault(id(jb), {})[vn] = mv
     # ---- run: implementation + oracle
     for k, jb in enumerate(jobs):
-        cool = cools[jb["ci"]]
+        cool = jb.get("cool") or cools[jb["ci"]]
         case = {"kind": jb["kind"], "cool": cool.spec(), "fmt": jb["fmt"], "one_based": jb["one_based"], "duplex": jb["duplex"],
                 "chunk": jb["chunk"], "fields": jb["fields"], "symm": jb["symm"], "text": jb["text"], "vn": jb.get("vn", ["count"]),
                 "bins": bins_kind(cool, rng),
                 "dump_opt": ({kk: (list(v) if isinstance(v, tuple) else v) for kk, v in jb["dump_opt"].items()} if "dump_opt" in jb else None)}
+        for key in ("mode", "comment", "extra", "post", "short", "floats"):
+            if key in jb:
+                case[key] = jb[key]
         ctx.case(case, nontrivial=bool(jb["text"]) and (jb["one_based"] or jb["chunk"] is not None or bool(jb["fields"]) or jb["fmt"] == "bg2"),
                  kind=jb["kind"] + ":" + jb["fmt"])
         if jb["text"] is None:
@@ -893,13 +1153,14 @@ def run_load(ctx, runner, cli, cools, uris, thorough):
         code, ires, storage = impl_load(runner, cli, cool, case, ldir, k)
         # model
         vn = jb["vn"]
-        mm = by_job[id(jb)]
-        mcols = [mpx(mm[v]) for v in vn]
-        if any(mc is None for mc in mcols):
-            mres = None
-        else:
-            mres = [tuple([a, b] + [mc[i][2] for mc in mcols]) for i, (a, b, _) in enumerate(mcols[0])]
-        ctx.compare("load pixel table", case, None if ires is None else [list(x) for x in ires], None if mres is None else [list(x) for x in mres])
+        mm = by_job.get(id(jb), {})
+        if not jb.get("nomodel"):
+            mcols = [mpx(mm[v]) for v in vn]
+            if any(mc is None for mc in mcols):
+                mres = None
+            else:
+                mres = [tuple([a, b] + [mc[i][2] for mc in mcols]) for i, (a, b, _) in enumerate(mcols[0])]
+            ctx.compare("load pixel table", case, None if ires is None else [list(x) for x in ires], None if mres is None else [list(x) for x in mres])
         if "__text" in mm:
             ctx.compare("dump text == model coo_text/bg2_text", case, jb["text"], [list(r) for r in mm["__text"][1]])
         bad = oracle_load(cool, case, code, ires, storage)
@@ -920,25 +1181,84 @@ POS_NAMES = ["chrom1", "pos1", "chrom2", "pos2"]
 
 
 def impl_cload(runner, cli, cool, case, pdir, k):
+    """case["mode"]: file | gz | stdin (stdin through a real subprocess: CliRunner's stdin has no peek());
+    case["midcomment"]: a comment line after the first record; duplex / short / extra / post as for load"""
+    import gzip
+    import subprocess
+    import sys
+    import cooler
     lay = case["layout"]
-    inp = pdir / f"p{k}.pairs"
-    with open(inp, "w") as f:
-        if case["header"]:
-            f.write("## pairs format v1.0\n#columns: whatever\n")
-        f.write("".join("\t".join(rec) + "\n" for rec in case["text"]))
+    mode = case.get("mode", "file")
+    body = "## pairs format v1.0\n#columns: whatever\n" if case["header"] else ""
+    for i, rec in enumerate(case["text"]):
+        body += "\t".join(rec) + "\n"
+        if i == 0 and case.get("midcomment"):
+            body += case["midcomment"] + " a comment\n"
+    inp = pdir / (f"p{k}.pairs" + (".gz" if mode == "gz" else ""))
+    if mode == "gz":
+        with gzip.open(inp, "wt") as f:
+            f.write(body)
+    elif mode == "file":
+        inp.write_text(body)
     out = pdir / f"o{k}.cool"
+    post = case.get("post") or {}
+    target = str(out)
+    extra = list(case.get("extra") or [])
+    if post.get("append"):
+        cool.create(str(out))
+        target = str(out) + "::/second"
+        extra.append("--append")
+    tdir = None
+    if post.get("tempdir"):
+        tdir = pdir / f"tmp{k}"
+        tdir.mkdir(exist_ok=True)
+        extra += ["--temp-dir", str(tdir)]
+    if post.get("metadata") is not None:
+        mp = pdir / f"meta{k}.json"
+        mp.write_text(json.dumps(post["metadata"]))
+        extra += ["--metadata", str(mp)]
     args = ["cload", "pairs", "-c1", str(lay["chrom1"] + 1), "-p1", str(lay["pos1"] + 1), "-c2", str(lay["chrom2"] + 1), "-p2", str(lay["pos2"] + 1)]
     if case["zero_based"]:
-        args.append("--zero-based")
+        args.append("-0" if case.get("short") else "--zero-based")
     if not case["symm"]:
-        args.append("--no-symmetric-upper")
+        args.append("-N" if case.get("short") else "--no-symmetric-upper")
+    if case.get("duplex"):
+        args += ["--input-copy-status", "duplex"]
     if case["chunk"] is not None:
-        args += ["--chunksize", str(case["chunk"])]
+        args += ["-c" if case.get("short") else "--chunksize", str(case["chunk"])]
     for a in case["fields"]:
         args += ["--field", a]
-    args += [bins_arg(cool, pdir, f"b{k}", case["bins"]), str(inp), str(out)]
-    code, _ = invoke(runner, cli, args, limit=30)
-    got = read_pixels(str(out), cols=tuple(["count"] + case["extras"])) if code == 0 else None
+    args += extra + [bins_arg(cool, pdir, f"b{k}", case["bins"]), "-" if mode == "stdin" else str(inp), target]
+    if mode == "stdin":
+        try:
+            pr = subprocess.run([sys.executable, "-W", "ignore", "-c", "from cooler.cli import cli; cli()"] + args, input=body.encode(),
+                                capture_output=True, timeout=60)
+            code = pr.returncode
+        except subprocess.TimeoutExpired:
+            code = "timeout"
+    else:
+        code, _ = invoke(runner, cli, args, limit=30)
+    got = None
+    if code == 0:
+        got = read_pixels(target, cols=("count",))
+        if got is not None and case["extras"]:
+            ex = read_pixels(target, cols=tuple(case["extras"]), floats=bool(case.get("floats")))
+            got = None if ex is None or len(ex[1]) != len(got[1]) else (got[0], [g + e[2:] for g, e in zip(got[1], ex[1])])
+    obs = {}
+    if code == 0 and post:
+        try:
+            clr = cooler.Cooler(target)
+            obs["metadata"] = clr.info.get("metadata")
+            obs["assembly"] = clr.info.get("genome-assembly")
+            obs["groups"] = sorted(cooler.fileops.list_coolers(str(out)))
+            if post.get("append"):
+                first = read_pixels(str(out))
+                obs["first_intact"] = first is not None and first[1] == [tuple(p) for p in cool.px]
+            if tdir is not None:
+                obs["tempdir_left"] = sorted(os.listdir(tdir))
+        except Exception as e:
+            obs["error"] = type(e).__name__
+    case["_obs"] = obs
     for pth in (inp, out):
         if pth.exists():
             pth.unlink()
@@ -950,20 +1270,26 @@ def oracle_cload(cool, case, code, ires, pdir, k):
     import cooler
     from cooler.create import sanitize_records, aggregate_records
     lay, extras = case["layout"], case["extras"]
-    recs = [{nm: (rec[kk] if nm.startswith("chrom") else int(rec[kk])) for nm, kk in lay.items()} for rec in case["text"]]
+    num = (lambda t: Fraction(t)) if case.get("floats") else int
+    recs = [{nm: (rec[kk] if nm.startswith("chrom") else (int(rec[kk]) if nm.startswith("pos") else num(rec[kk]))) for nm, kk in lay.items()}
+            for rec in case["text"]]
+    aggs = case.get("aggs") or {}
+    combine = {"sum": lambda x, y: x + y, "max": max, "min": min}
     cnt = Counter()
-    sums = {e: Counter() for e in extras}
+    sums = {e: {} for e in extras}
     for r in recs:
         if r["chrom1"] not in cool.names or r["chrom2"] not in cool.names:
             continue
         a1 = (cool.names.index(r["chrom1"]), r["pos1"] - (0 if case["zero_based"] else 1))
         a2 = (cool.names.index(r["chrom2"]), r["pos2"] - (0 if case["zero_based"] else 1))
         if case["symm"] and a2 < a1:
+            if case.get("duplex"):
+                continue
             a1, a2 = a2, a1
         key = (py_bin_of(cool, *a1), py_bin_of(cool, *a2))
         cnt[key] += 1
         for e in extras:
-            sums[e][key] += r[e]
+            sums[e][key] = r[e] if key not in sums[e] else combine[aggs.get(e, "sum")](sums[e][key], r[e])
     exp = sorted(tuple([a, b, cnt[(a, b)]] + [sums[e][(a, b)] for e in extras]) for (a, b) in cnt)
     if ires != exp:
         return {"why": "cload pairs differs from the independent count of the records", "expected": exp[:15],
@@ -972,15 +1298,18 @@ def oracle_cload(cool, case, code, ires, pdir, k):
         df = pd.DataFrame({"chrom1": [r["chrom1"] for r in recs], "pos1": np.array([r["pos1"] for r in recs], dtype=np.int64),
                            "chrom2": [r["chrom2"] for r in recs], "pos2": np.array([r["pos2"] for r in recs], dtype=np.int64)})
         for e in extras:
-            df[e] = np.array([r[e] for r in recs], dtype=np.int64)
+            df[e] = np.array([float(r[e]) for r in recs], dtype=np.float64) if case.get("floats") else np.array([r[e] for r in recs], dtype=np.int64)
         bdf = cool.bins_df()[["chrom", "start", "end"]]
         san = sanitize_records(bdf, schema="pairs", decode_chroms=True, is_one_based=not case["zero_based"],
-                               tril_action="reflect" if case["symm"] else None, sort=True, validate=True)
-        agg = aggregate_records(agg={e: "sum" for e in extras}, count=True, sort=False)
+                               tril_action=("drop" if case.get("duplex") else "reflect") if case["symm"] else None, sort=True, validate=True)
+        agg = aggregate_records(agg={e: aggs.get(e, "sum") for e in extras}, count=True, sort=False)
         lout = pdir / f"lib{k}.cool"
         cooler.create_cooler(str(lout), bdf, [agg(san(df))], columns=extras + ["count"], ordered=False,
                              symmetric_upper=case["symm"], boundscheck=False, triucheck=False, dupcheck=False, ensure_sorted=False)
-        lgot = read_pixels(str(lout), cols=tuple(["count"] + extras))
+        lgot = read_pixels(str(lout), cols=("count",))
+        if lgot is not None and extras:
+            lex = read_pixels(str(lout), cols=tuple(extras), floats=bool(case.get("floats")))
+            lgot = None if lex is None else (lgot[0], [g + e[2:] for g, e in zip(lgot[1], lex[1])])
         lres = None if lgot is None else lgot[1]
         if lout.exists():
             lout.unlink()
@@ -989,6 +1318,18 @@ def oracle_cload(cool, case, code, ires, pdir, k):
     if lres != ires:
         return {"why": "cload pairs differs from the library path (sanitize_records + aggregate_records + create_cooler)",
                 "library": lres if isinstance(lres, str) else (None if lres is None else lres[:15]), "got": None if ires is None else ires[:15]}
+    post, obs = case.get("post") or {}, case.get("_obs") or {}
+    if post and code == 0:
+        if "error" in obs:
+            return {"why": "the created file cannot be inspected", "obs": obs}
+        if post.get("metadata") is not None and obs.get("metadata") != post["metadata"]:
+            return {"why": "--metadata not stored", "obs": obs}
+        if post.get("assembly") is not None and obs.get("assembly") != post["assembly"]:
+            return {"why": "--assembly not stored", "obs": obs}
+        if post.get("append") and (obs.get("groups") != ["/", "/second"] or not obs.get("first_intact")):
+            return {"why": "--append: the existing collection was lost or altered", "obs": obs}
+        if post.get("tempdir") and obs.get("tempdir_left"):
+            return {"why": "temporary files left in --temp-dir", "obs": obs}
     return None
 
 
@@ -1037,7 +1378,7 @@ def run_cload(ctx, runner, cli, cools, thorough):
     for pi, perm in enumerate(perms):
         ci = pi % len(cools)
         jobs.append(make_job(ci, dict(zip(pos_names, perm)), 4, 0, pi % 2 == 0, pi % 3 != 0, rng.choice([None, 2]), pi % 4 == 0, False))
-    for _ in range(90 if thorough else 30):
+    for _ in range(90 if thorough else 24):
         ci = rng.randrange(len(cools))
         nextra = rng.choice([0, 1, 1, 2])
         ncols = rng.randint(4 + nextra, 8)
@@ -1045,18 +1386,50 @@ def run_cload(ctx, runner, cli, cools, thorough):
         layout = dict(zip(pos_names + ["score", "s2"][:nextra], cols))
         jobs.append(make_job(ci, layout, ncols, nextra, rng.random() < 0.5, rng.random() < 0.6, rng.choice([None, 1, 3]),
                              rng.random() < 0.3, rng.random() < 0.6))
+    # ---- audit: options / representations not used above
+    ident = dict(zip(pos_names, range(4)))
+
+    def aud(**kw):
+        nextra = kw.pop("nextra", 0)
+        lay = dict(ident)
+        if nextra:
+            lay["score"] = 5
+        jb = make_job(kw.pop("ci", 0), lay, 4 + (2 if nextra else 0), nextra, kw.pop("zero_based", False), kw.pop("symm", True),
+                      kw.pop("chunk", None), kw.pop("header", False), False, nrec=kw.pop("nrec", 9))
+        jb.update(kw)
+        jobs.append(jb)
+        return jb
+    aud(duplex=True)
+    aud(duplex=True, chunk=2, ci=1, zero_based=True, short=True)
+    aud(mode="gz", header=True)
+    aud(mode="stdin", header=True, nrec=5)
+    aud(symm=False, zero_based=True, short=True, chunk=3)
+    aud(chunk=1, extra=["--mergebuf", "2", "--max-merge", "2"], post={"tempdir": True})
+    aud(extra=["--assembly", "hgX", "--storage-options", "compression=gzip,compression_opts=4"], post={"metadata": {"k": [1, 2]}, "assembly": "hgX"})
+    aud(post={"append": True})
+    for aggname in ("max", "min", "sum"):
+        jb = aud(nextra=1, aggs={"score": aggname}, floats=True, nomodel=True)
+        for row, r in zip(jb["text"], jb["recs"]):
+            row[5] = str(r["score"] / 4)                        # dyadic floats
+        jb["fields"] = [f"score=6:dtype=float,agg={aggname}"]
+    # finding candidate: --comment-char is accepted but not passed on; exercised only once it is a registered known finding
+    from common import load_known
+    if any(kf.get("signature") == CLOAD_CC for kf in load_known() if kf.get("property") == PROP):
+        aud(midcomment="#", extra=["--comment-char", "#"], nomodel=True, nrec=4)
     # ---- model
     exprs, meta = [], []
     for jb in jobs:
+        if jb.get("nomodel"):
+            continue
         cool = cools[jb["ci"]]
         lay = jb["layout"]
         sch = (f"cload_schema {C.z(lay['chrom1'] + 1)} {C.z(lay['pos1'] + 1)} {C.z(lay['chrom2'] + 1)} {C.z(lay['pos2'] + 1)} {fp_list(jb['fields'], True)}")
-        tril = "reflect" if jb["symm"] else None
+        tril = ("drop" if jb.get("duplex") else "reflect") if jb["symm"] else None
         for vn in [None] + jb["extras"]:
             v = "None" if vn is None else f"(Some {C.s(vn)})"
             exprs.append(f"match {sch} with Some s => cload_pairs {coq_bins(cool)} {coq_names(cool)} s {v} {C.b(not jb['zero_based'])} {TRIL[tril]} {coq_text(jb['text'])} | None => None end")
             meta.append((jb, vn))
-    mvals = C.coq_eval(IMPORTS, exprs, tmpdir=ctx.tmp / "pairsv", shard=40, jobs=4)
+    mvals = C.coq_eval(IMPORTS, exprs, tmpdir=ctx.tmp / "pairsv", shard=25, jobs=4)
     by_job = {}
     for (jb, vn), mv in zip(meta, mvals):
         by_job.setdefault(id(jb), {})[vn] = mpx(mv)
@@ -1067,16 +1440,20 @@ def run_cload(ctx, runner, cli, cools, thorough):
         case = {"kind": "cload-pairs", "cool": cool.spec(), "layout": lay, "ncols": jb["ncols"], "zero_based": jb["zero_based"],
                 "symm": jb["symm"], "chunk": jb["chunk"], "header": jb["header"], "fields": jb["fields"], "text": jb["text"],
                 "extras": jb["extras"], "bins": bins_kind(cool, rng)}
+        for key in ("mode", "midcomment", "duplex", "short", "extra", "post", "aggs", "floats"):
+            if key in jb:
+                case[key] = jb[key]
         identity = [lay[n] for n in POS_NAMES] == [0, 1, 2, 3]
         ctx.case(case, nontrivial=not identity, kind="cload:" + ("ascending" if [lay[n] for n in POS_NAMES] == sorted(lay[n] for n in POS_NAMES) else "non-ascending"))
         code, ires = impl_cload(runner, cli, cool, case, pdir, k)
-        mm = by_job[id(jb)]
-        mcols = [mm[None]] + [mm[e] for e in jb["extras"]]
-        mres = None if any(mc is None for mc in mcols) else [tuple([a, b] + [mc[i][2] for mc in mcols]) for i, (a, b, _) in enumerate(mcols[0])]
-        ctx.compare("cload pairs pixel table", case, None if ires is None else [list(x) for x in ires], None if mres is None else [list(x) for x in mres])
+        if not jb.get("nomodel"):
+            mm = by_job[id(jb)]
+            mcols = [mm[None]] + [mm[e] for e in jb["extras"]]
+            mres = None if any(mc is None for mc in mcols) else [tuple([a, b] + [mc[i][2] for mc in mcols]) for i, (a, b, _) in enumerate(mcols[0])]
+            ctx.compare("cload pairs pixel table", case, None if ires is None else [list(x) for x in ires], None if mres is None else [list(x) for x in mres])
         bad = oracle_cload(cool, case, code, ires, pdir, k)
         if bad:
-            ctx.fail(case, bad, None)
+            ctx.fail(case, bad, CLOAD_CC if (case.get("midcomment") and "--comment-char" in (case.get("extra") or [])) else None)
     ctx.extra["cload_cases"] = len(jobs)
 
 
@@ -1226,11 +1603,15 @@ def run(ctx):
     cwd = os.getcwd()
     os.chdir(ctx.tmp)
     try:
-        cools, uris = run_dump(ctx, runner, cli, thorough)
-        run_load(ctx, runner, cli, cools, uris, thorough)
-        run_cload(ctx, runner, cli, cools, thorough)
-        run_fieldparam(ctx)
-        run_light(ctx, runner, cli, cools, uris, thorough)
+        import time
+        tm, t0 = {}, time.time()
+        cools, uris = run_dump(ctx, runner, cli, thorough); tm["dump"] = round(time.time() - t0, 1); t0 = time.time()
+        run_dump_audit(ctx, runner, cli, cools, uris); tm["dump_audit"] = round(time.time() - t0, 1); t0 = time.time()
+        run_load(ctx, runner, cli, cools, uris, thorough); tm["load"] = round(time.time() - t0, 1); t0 = time.time()
+        run_cload(ctx, runner, cli, cools, thorough); tm["cload"] = round(time.time() - t0, 1); t0 = time.time()
+        run_fieldparam(ctx); tm["fieldparam"] = round(time.time() - t0, 1); t0 = time.time()
+        run_light(ctx, runner, cli, cools, uris, thorough); tm["light"] = round(time.time() - t0, 1)
+        ctx.extra["section_wall_s"] = tm
     finally:
         os.chdir(cwd)
         logging.disable(logging.NOTSET)
@@ -1255,12 +1636,12 @@ def replay(ctx, case):
                     opt[k] = (opt[k][0], tuple(opt[k][1]))
             uri = str(ctx.tmp / "replay.cool")
             cool.create(uri)
-            code, text = invoke(runner, cli, cli_args(opt, uri))
+            code, text = invoke(runner, cli, cli_args(opt, uri)[:-1] + list(case.get("extra_args") or []) + [uri])
             sub = type(ctx)(ctx.prop, ctx.tier, ctx.seed)
-            check_dump_case(sub, cool, opt, code, text, None)
+            check_dump_case(sub, cool, opt, code, text, SKIP, extra_args=case.get("extra_args"))
             shutil.rmtree(sub.tmp, ignore_errors=True)
             return not sub.failures
-        if kind in ("load-dump", "load-fields"):
+        if kind in ("load-dump", "load-fields", "load-audit"):
             cool = Cool.from_spec(case["cool"])
             if kind == "load-dump":
                 uri = str(ctx.tmp / "replay.cool")
